@@ -106,3 +106,46 @@ TRANSFORMS = {
     "rename-locals": rename_locals_source,
     "reformat": lambda s: ast.unparse(ast.parse(s)),
 }
+
+
+class _Commute(ast.NodeTransformer):
+    """a * b -> b * a (numbers / arrays; also fine for list * int), x == y -> y == x, a < b -> b > a, ..."""
+
+    FLIP = {ast.Lt: ast.Gt, ast.Gt: ast.Lt, ast.LtE: ast.GtE, ast.GtE: ast.LtE, ast.Eq: ast.Eq, ast.NotEq: ast.NotEq}
+
+    def visit_BinOp(self, n):
+        self.generic_visit(n)
+        if isinstance(n.op, ast.Mult):
+            n.left, n.right = n.right, n.left
+        return n
+
+    def visit_Compare(self, n):
+        self.generic_visit(n)
+        if len(n.ops) == 1 and type(n.ops[0]) in self.FLIP:
+            n.left, n.comparators[0] = n.comparators[0], n.left
+            n.ops[0] = self.FLIP[type(n.ops[0])]()
+        return n
+
+
+class _InvertIf(ast.NodeTransformer):
+    """if c: A else: B  ->  if not c: B else: A   (only when both branches exist and there is no elif chain)."""
+
+    def visit_If(self, n):
+        self.generic_visit(n)
+        if n.orelse and not (len(n.orelse) == 1 and isinstance(n.orelse[0], ast.If)):
+            n.test = ast.UnaryOp(op=ast.Not(), operand=n.test)
+            n.body, n.orelse = n.orelse, n.body
+        return n
+
+
+def _apply(transformer_cls):
+    def f(src):
+        tree = ast.parse(src)
+        tree = transformer_cls().visit(tree)
+        ast.fix_missing_locations(tree)
+        return ast.unparse(tree)
+    return f
+
+
+TRANSFORMS["commute"] = _apply(_Commute)
+TRANSFORMS["invert-if"] = _apply(_InvertIf)
